@@ -1,20 +1,21 @@
 #!/bin/bash
 # benign_all.sh [tier] : apply every stored behaviour-preserving change (benign/*/patch.diff) to /repo, run ALL
 # checks, undo. Any VIOLATION line is a false alarm of the machinery (or the change is not benign after all).
-cd /verif
-export VERIF_EVIDENCE_DIR=/verif/.build/seed-evidence
+V=$(cd "$(dirname "$0")/.." && pwd); R=${VERIF_REPO:-/repo}
+cd "$V"
+export VERIF_EVIDENCE_DIR=$V/.build/seed-evidence
 TIER=${1:-quick}
 for d in benign/*/; do
   id=$(basename "$d")
-  if ! git -C /repo apply --check "/verif/$d/patch.diff" 2>/dev/null; then echo "$id: PATCH-DOES-NOT-APPLY"; continue; fi
-  git -C /repo apply "/verif/$d/patch.diff"
+  if ! git -C "$R" apply --check "$V/$d/patch.diff" 2>/dev/null; then echo "$id: PATCH-DOES-NOT-APPLY"; continue; fi
+  git -C "$R" apply "$V/$d/patch.diff"
   alarms=""
   for p in C01 C02 C03 C04 C05 C06 C07 C08 C09 C10 C11 C12 C13 C14 C15 C16 C17 C18 C19 C20; do
     out=$(./check "$p" "$TIER" 2>&1)
     if echo "$out" | grep -q "^VIOLATION"; then alarms="$alarms $(echo "$out" | grep '^VIOLATION' | head -1 | sed 's/VIOLATION property=//')"; fi
   done
-  git -C /repo checkout -- . >/dev/null 2>&1
-  git -C /repo clean -fdq >/dev/null 2>&1
+  git -C "$R" checkout -- . >/dev/null 2>&1
+  git -C "$R" clean -fdq >/dev/null 2>&1
   if [ -z "$alarms" ]; then echo "$id: SILENT"; else echo "$id: ALARM $alarms"; fi
 done
-(cd /verif/harness && GOFLAGS=-mod=mod GOPROXY=off GOSUMDB=off GOTOOLCHAIN=local go build -tags verif -o /verif/.build/harness . ) && (cd /repo && go build -o /verif/.build/taskctl ./cmd/taskctl)
+(cd "$V/harness" && GOFLAGS=-mod=mod GOPROXY=off GOSUMDB=off GOTOOLCHAIN=local go build -tags verif -o "$V/.build/harness" . ) && (cd "$R" && go build -o "$V/.build/taskctl" ./cmd/taskctl)
